@@ -21,6 +21,7 @@ UNITS = {
     'unitD': {'spec': 'unitD.vrs', 'threads': 8},
     'unitI': {'spec': 'unitI.vrs'},
     'unitE': {'spec': 'unitE.vrs'},
+    'unitJ': {'spec': 'unitJ.vrs', 'expanded': True},
     'unitF': {'spec': 'unitF.vrs', 'expanded': True, 'threads': 8},
     'unitC': {'spec': 'unitC.vrs', 'expanded': True, 'threads': 16, 'timeout': 2400},
 }
